@@ -551,12 +551,21 @@ int runMain(int argc, char** argv, const Prop* props, int nprops) {
       if (ch.errFd >= 0) {
         char eb[4096];
         off_t sz = lseek(ch.errFd, 0, SEEK_END);
-        off_t st = sz > 3000 ? sz - 3000 : 0;
+        // head (the sanitizer's first line names the error) + tail (summary)
+        if (sz > 3600) {
+          lseek(ch.errFd, 0, SEEK_SET);
+          ssize_t n0 = read(ch.errFd, eb, 1200);
+          if (n0 > 0) {
+            eb[n0] = 0;
+            err = std::string(eb) + "\n ... \n";
+          }
+        }
+        off_t st = sz > 2400 ? sz - 2400 : 0;
         lseek(ch.errFd, st, SEEK_SET);
         ssize_t n = read(ch.errFd, eb, sizeof eb - 1);
         if (n > 0) {
           eb[n] = 0;
-          err = eb;
+          err += eb;
         }
       }
       if (idx == ~0ull)
